@@ -22,9 +22,13 @@ from pyvc.spec import REG
 from .expr import *  # noqa
 from . import expr as _expr
 from . import expr_native as _native
+from . import c13_types as _types  # attribute chain on type values (dispatch / error side)
 
 LEVEL = "proof"
 _native.install(REG) if not _native.NATIVE.cases else None
+_native.install_chain() if not any(q.endswith('_visit_binary_operator_chain') for q, _, _ in _native.NATIVE.cases) else None
+_native.install_attribute() if not any(q.endswith('_operator.attribute') for q, _, _ in _native.NATIVE.cases) else None
+_native.install_types(REG) if not any(q.endswith('CompositeType._attribute') for q, _, _ in _native.NATIVE.cases) else None
 NATIVE = _native.NATIVE
 NATIVE_BUDGET = {"quick": 40, "thorough": 600}
 
@@ -38,21 +42,29 @@ EXPLANATION = (
 NOT_COVERED = [
     "tokenisation, blanks and parentheses: that the tree handed to the visitors is the one the Specification grammar "
     "prescribes (PEG semantics of parsimonious is assumed; the rule layering is checked structurally, level 'other')",
-    "_visit_binary_operator_chain as a left fold: bounded native check only (tuples of heterogeneous children are not modelled)",
-    "decoding of literal digits: bounded enumeration against the real grammar (int()/Fraction(str) are uninterpreted in the "
-    "proofs); escape table of _parse_string_literal: only its exception classes are proved, not the decoded text",
-    "the attribute operator on types, identifiers (unknown identifiers of the statement); min / max / count of a Set ARE "
-    "proved (true minimum / maximum by the rational order via the selection-fold lemma of functools.reduce, an assumed "
-    "library lemma whose premises - asymmetry and negative transitivity of the selection - are proof obligations)",
-    "sets of sets / sets of types (precondition `domain`); non-integer exponents are specified through CPython's binary "
-    "floating point (uninterpreted fpow_* functions), as the code computes them - not as mathematical roots",
+    "literal digits for ALL texts: for a symbolic text the decoding functions digits_value / fraction_literal_value are "
+    "uninterpreted (proved: which text, which base, prefix dispatch, exactness of the Fraction); the digit-level meaning is "
+    "proved on the listed concrete texts of every notation against an independent decoder, and enumerated (bounded) against "
+    "the real grammar",
+    "string literals: the decoded text is proved value by value on concrete literals covering every entry of the escape table "
+    "(well-formed and malformed); for a symbolic literal only the exception classes; literals containing the escaped "
+    "delimiter are outside the precondition",
+    "the values of the layout intrinsics `_bit_length_` / `_extent_` (C08); SerializableType._attribute is an assumed "
+    "dispatch-side contract; identifiers (unknown identifiers of the statement); sets of sets as operands of the table",
+    "sets of sets / sets of types in the operator table (precondition `domain`); non-integer exponents are specified through "
+    "CPython's binary floating point (uninterpreted fpow_* functions), as the code computes them - not as mathematical roots",
     "bitwise | ^ & on integers are uninterpreted total functions of the two operands (operand order and integrality are "
     "checked, the bit pattern is not); NFC normalisation is an uninterpreted function",
 ]
 ASSUMPTIONS = [
     "fractions.Fraction arithmetic is exact rational arithmetic with the CPython exceptions listed under "
     "assumed_library_contracts; equality/hash of expression values is value equality (sets of canonical references)",
-    "Set element classes are Boolean, Rational or String (contract preconditions `domain`)",
+    "Set element classes are Boolean, Rational or String (contract preconditions `domain`; `Set._attribute` / `attribute`: "
+    "any class but Set)",
+    "operator callables found in a parse tree behave like the operator functions of pydsdl._expression (result = a function "
+    "of callable, left, right; only InvalidOperandError subclasses are raised)",
+    "functools.reduce: selection-fold lemma (premises are obligations); int(str, base) / Fraction(str): PEP 515 separators, "
+    "prefix dispatch, positional value uninterpreted",
 ]
 
 # ------------------------------------------------------------------------------------------------ Specification tables
@@ -161,30 +173,7 @@ def precedence_structure(eng, tier, seed):
 
 
 # ------------------------------------------------------------------------------------------------ literals
-def _independent_int(text):
-    t = text.replace("_", "")
-    base = 10
-    if t[:2].lower() == "0x":
-        base, t = 16, t[2:]
-    elif t[:2].lower() == "0b":
-        base, t = 2, t[2:]
-    elif t[:2].lower() == "0o":
-        base, t = 8, t[2:]
-    v = 0
-    for ch in t:
-        v = v * base + "0123456789abcdef".index(ch.lower())
-    return fractions.Fraction(v)
-
-
-def _independent_real(text):
-    t = text.replace("_", "").lower()
-    mant, _, exp = t.partition("e")
-    ip, _, fp = mant.partition(".")
-    v = fractions.Fraction(int(ip or "0")) + (fractions.Fraction(int(fp), 10 ** len(fp)) if fp else 0)
-    if exp:
-        sign = -1 if exp[0] == "-" else 1
-        v *= fractions.Fraction(10) ** (sign * int(exp.lstrip("+-")))
-    return v
+_independent_int, _independent_real = INDEP_INT, INDEP_REAL  # the Specification's literal semantics (specs/expr.py)
 
 
 def literal_enumeration(eng, tier, seed):
